@@ -30,7 +30,7 @@ claim("C06",
 claim("C07",
   "Kani: is_ended contract + stability under advance; TimeScale duration/terminal lemmas; MergedTimeline::duration = max",
   "is_ended <=> (no timeline || as_secs_f32(time) >= duration()), never under an infinite duration, stable under further advances (monotone time); merged duration = max of components (infinite absorbing); the reported total duration agrees with the behaviour for every configuration (from t >= duration() on, every position the TimeScale contract allows is the terminal one - proved without an exactness side condition since the fix of the end-instant defect) and the terminal position is constant.",
-  "as C04 + A1; that real timelines are terminal for every t >= duration() is C03's lemma (all configurations) and is exercised by the native frame simulation. ", "DESIGN.md section 5 C07, 8.14")
+  "as C04 + A1; that real timelines are terminal for every t >= duration() is C03's lemma (all configurations; its Repeat::Times case is a 13-17 min query proved in the thorough tier only, the quick tier proves the other cases and runs the native frame simulation). ", "DESIGN.md section 5 C07, 8.14")
 claim("C08",
   "Verus: from_keyframes/value_at postconditions (no defining keyframe => empty => None); Kani: prepare_frame None iff no keyframes, animator/merged frame clauses",
   "For every keyframe list: no keyframe defines the property => frames and map empty => value_at returns None for every (t, hint, flag) (unbounded, Verus); no keyframes => prepare_frame returns None; the animator's advance/set_state and MergedTimeline::update leave unanimated properties bit-identical.",
